@@ -177,6 +177,10 @@ def run_task(task):
     return n, ntok, outcomes, fails, counts
 
 
+def _analyse_text(text):
+    return analyse(text)
+
+
 def run_trie(prop, kinds, plan, seed, extra_cases=None):
     """plan: list of (alphabet name, max length).  kinds: failure kinds this property judges.
     extra_cases: optional list of (label, text) judged by the same oracle."""
@@ -208,9 +212,9 @@ def run_trie(prop, kinds, plan, seed, extra_cases=None):
         st.depth_hist[f"{name}"] = maxlen
     extra_n = 0
     if extra_cases:
-        for label, text in extra_cases:
+        eres = explore.pmap(_analyse_text, [t for _, t in extra_cases], chunksize=8)
+        for (label, text), (fl, sig) in zip(extra_cases, eres):
             extra_n += 1
-            fl, sig = analyse(text)
             if sig is not None:
                 st.outcomes.add(hash(sig))
             for kind, fsig, detail in fl:
